@@ -75,7 +75,7 @@ theorem dget_eq_some_iff (l : Dict) (h : (keys l).Nodup) (k : Text) (v : AVal) :
       · rintro (e | e)
         · rw [e]
         · exact absurd (List.mem_map_of_mem (f := (·.1)) e) hn.1
-    · simp only [if_neg hk, List.mem_cons, Prod.mk.injEq, hk, false_and, false_or]
+    · simp only [List.mem_cons, Prod.mk.injEq, hk, false_and, false_or, if_false]
       exact ih hn.2
 
 /-- `sorted(keys)` does not change what a name maps to -/
